@@ -60,6 +60,9 @@ EXPRESSIONS (e : T means "e has inferred type T")
   compress(l, s) chain(l1, l2) accumulate(l) pairwise(l)       py_compress, ++, py_accumulate, py_pairwise
   range(n), range(a, b)                                        py_range
   t.size() t.numel() t.narrow(0, a, n) t.view(l)               t_shape t_len t_narrow0 t_view (first argument of narrow must be 0)
+  t.dim(), torch.split(t, b, dim=d)                             for t a strided view (type `view`, PyPrelude.py_view): pv_dim, pv_split
+  (x,)                                                          the one-element sequence [x]
+  (s for t in A for s in f(t))                                  concat (map f A); through py_mapM when f can raise
   f(args), f(k=v, ...)          call of a function translated in the same run (nested def, itself, or - by the source text of the
                                 callee expression, Target.calls, e.g. `super().__post_init__` or `Base.static_method` - an earlier
                                 target): positional / keyword arguments matched to its parameters, the `self.x` atoms the callee
@@ -175,7 +178,7 @@ class Target:
 def is_list(t): return t.startswith("list ")
 def is_dict(t): return t.startswith("dict ")                 # dict (K * V): Gallina list (K * V), the items in insertion order
 def dict_kv(t): return t[6:-1].split(" * ", 1)
-def gtype(t): return re.sub(r"\bstring\b", "String.string", t.replace("dict (", "list ("))      # the Gallina spelling of a type
+def gtype(t): return re.sub(r"\bview\b", "py_view", re.sub(r"\bstring\b", "String.string", t.replace("dict (", "list (")))      # the Gallina spelling of a type
 def same(t1, t2): return t1 == t2 or (is_list(t1) and is_list(t2) and "list ?" in (t1, t2)) or (is_dict(t1) and is_dict(t2) and "dict ?" in (t1, t2))     # `list ?`: an empty display, element type open
 def elem(t): return t[5:].strip() if not t[5:].startswith("(") else t[5:]
 def ident(n): return n + "_" if n in RESERVED else n
@@ -456,8 +459,10 @@ class Fn:
 
     def e_Tuple(self, n, env, want):
         b, cs, ts = self.seq_of(n.elts, env)
+        if len(cs) == 1:                                   # (x,): a one-element sequence
+            return b, f"[{cs[0]}]", "list " + ts[0]
         if len(cs) < 2:
-            raise Untranslatable(n, "tuple display with fewer than two elements")
+            raise Untranslatable(n, "empty tuple display")
         return b, "(" + ", ".join(cs) + ")", "(" + " * ".join(ts) + ")"
 
     def e_Subscript(self, n, env, want):
@@ -499,8 +504,23 @@ class Fn:
 
     def comprehension(self, node, env):
         """[e for x in l] / (e for x in l) as the argument of tuple()/list(): map, or py_mapM when e can raise"""
+        if len(node.generators) == 2 and all(isinstance(g.target, ast.Name) and not g.ifs and not g.is_async for g in node.generators) \
+                and isinstance(node.elt, ast.Name) and node.elt.id == node.generators[1].target.id:
+            # (s for t in A for s in f(t)): the sequences f(t), t in A, one after the other
+            g1, g2 = node.generators
+            b, c, t = self.expr(g1.iter, env)
+            if not is_list(t):
+                raise Untranslatable(node, f"comprehension over a {t}")
+            bi, ci, ti = self.expr(g2.iter, {**env, g1.target.id: elem(t)})
+            if not is_list(ti):
+                raise Untranslatable(node, f"inner comprehension over a {ti}")
+            x = ident(g1.target.id)
+            if not bi:
+                return b, f"(concat (map (fun {x} => {ci}) {c}))", ti
+            tmp = self.fresh()
+            return b + [(tmp, f"(py_mapM (fun {x} =>\n{self.wrap(bi, 'Ret ' + ci)}) {c})")], f"(concat {tmp})", ti
         if len(node.generators) != 1 or node.generators[0].is_async:
-            raise Untranslatable(node, "comprehension with several `for`")
+            raise Untranslatable(node, "comprehension with several `for` (other than a flattening `for t in A for s in f(t)`)")
         g = node.generators[0]
         b, c, t = self.expr(g.iter, env)
         if not is_list(t):
@@ -580,6 +600,12 @@ class Fn:
             finally:
                 self.tr.helpers[f] = h
             return binds + b, c, t
+        if f == "torch.split" and len(args) == 2 and [k.arg for k in kws] == ["dim"]:   # torch.split(t, b, dim=d) on a strided view
+            b, cs, ts = self.seq_of([*args, kws[0].value], env)
+            if ts != ["view", "Z", "Z"]:
+                raise Untranslatable(n, f"torch.split applied to {ts}")
+            tmp = self.fresh()
+            return b + [(tmp, f"(pv_split {cs[0]} {cs[1]} {cs[2]})")], tmp, "list view"
         if f in self.tgt.foreign and not kws:                                         # a foreign function that is a parameter of the module
             gname, atys, rty, exc = self.tgt.foreign[f]
             b, cs, ts = self.seq_of(args, env)
@@ -657,6 +683,8 @@ class Fn:
         if isinstance(n.func, ast.Attribute) and not f.startswith("math."):         # method calls on tensors
             b, c, t = self.expr(n.func.value, env)
             meth = n.func.attr
+            if t == "view" and meth == "dim" and not args and not kws:
+                return b, f"(pv_dim {c})", "Z"
             if t == "tensor" and meth in ("size", "numel") and not args and not kws:
                 return b, f"({'t_shape' if meth == 'size' else 't_len'} {c})", ("list Z" if meth == "size" else "Z")
             if t == "tensor" and meth == "narrow":
